@@ -716,9 +716,12 @@ def build_ops():
         img = rng.choice(pool.images)
         fill = rng.choice([0.0, 0.0, -1.0, np.nan])
         cp = rng.random() < 0.5
-        return [m, img], lambda a: (a[0].to_image(a[1].shape), a[0].cutout(a[1], fill_value=fill, copy=cp),
-                                    a[0].multiply(a[1], fill_value=fill), a[0].get_values(a[1]),
-                                    a[0].get_overlap_slices(a[1].shape), a[0].shape, np.asarray(a[0])), None
+        # a caller-owned bad-pixel mask (an input like the image: fingerprinted before and after)
+        badmask = np.array([rng.random() < 0.4 for _ in range(int(np.asarray(img).size))], dtype=bool).reshape(np.shape(img))
+        return [m, img, badmask], lambda a: (a[0].to_image(a[1].shape), a[0].cutout(a[1], fill_value=fill, copy=cp),
+                                             a[0].multiply(a[1], fill_value=fill), a[0].get_values(a[1]),
+                                             a[0].get_values(a[1], mask=a[2]), a[0].get_values(a[1]),
+                                             a[0].get_overlap_slices(a[1].shape), a[0].shape, np.asarray(a[0])), None
 
     @op('regions_list_ops')
     def _(pool, rng):
@@ -1411,7 +1414,34 @@ def fixed_ops_results():
         from regions.core.registry import RegionsRegistry
         put('registry_order', lambda: [(k[0].__name__, k[1], k[2]) for k in RegionsRegistry.registry])
         put('crtf:pix:image', lambda: R.Regions(pix_list()).serialize(format='crtf', coordsys='image'), text=True)
+        # one path NAME without a recognised extension, rewritten in each format and read with auto-detection.  In the
+        # long-running process the same name has been read before while it held DS9 text (`same_path_history`): whatever
+        # the library remembers about a file name must not survive the rewrite.
+        same = os.environ.get('C13_SAME_PATH')
+        if same:
+            def rewrite_read(fmt):
+                R.Regions(pix_list()).write(same, format=fmt, overwrite=True)
+                return R.Regions.read(same)
+            for fmt in ('crtf', 'fits', 'ds9'):
+                put(f'autoread:same_name:{fmt}', lambda: rewrite_read(fmt))
     return out
+
+
+def same_path_history():
+    """history for the `autoread:same_name:*` fixed operations: the name is written as DS9 and read with auto-detection
+    (only in the long-running process; fresh interpreters start without it)."""
+    import regions as R
+    same = os.environ.get('C13_SAME_PATH')
+    if not same:
+        return
+    with warnings.catch_warnings():
+        warnings.simplefilter('ignore')
+        try:
+            R.Regions([R.CirclePixelRegion(R.PixCoord(1.0, 2.0), 3.0)]).write(same, format='ds9', overwrite=True)
+            R.Regions.read(same)
+            R.Regions.read(same, format='ds9')
+        except Exception:
+            pass
 
 
 def only_global_order(a, b):
@@ -1806,11 +1836,16 @@ class Check(PropertyCheck):
             info['site_table'] = {k: self._info[k] for k in ('files', 'functions', 'rounds', 'sites', 'by_class',
                                                              'input_sites', 'unknown_sites', 'module_state_sites')}
         # (b) fixed operations: this process (after everything above) vs fresh interpreters, other hash seeds
+        import tempfile
+        same_dir = tempfile.mkdtemp(prefix='c13_same_')
+        os.environ['C13_SAME_PATH'] = os.path.join(same_dir, 'regions_same_name.dat')
+        same_path_history()
         here = fixed_ops_results()
         seeds = sorted({str(rng.randrange(1, 4000000000)) for _ in range(4)} | {'0'})
         procs = []
         for hs in seeds:
-            env = dict(os.environ, PYTHONHASHSEED=hs)
+            env = dict(os.environ, PYTHONHASHSEED=hs, C13_SAME_PATH=os.path.join(same_dir, f'child_{hs}', 'regions_same_name.dat'))
+            os.makedirs(os.path.join(same_dir, f'child_{hs}'), exist_ok=True)
             procs.append((hs, subprocess.Popen([sys.executable, '-m', 'harness.c13', '--child'], cwd=VERIF, env=env,
                                                stdout=subprocess.PIPE, stderr=subprocess.PIPE, text=True)))
         outs = {'this process': here}
@@ -1838,4 +1873,7 @@ class Check(PropertyCheck):
                           'detail': f'{nm}: {ka} and {kb} give different results: {str(a)[:200]!r} vs {str(b)[:200]!r}'})
         info['fresh_interpreters'] = {'operations': len(names), 'interpreters': len(outs) - 1, 'hash_seeds': seeds,
                                       'operations_with_differing_results': ndiff}
+        import shutil
+        shutil.rmtree(same_dir, ignore_errors=True)
+        os.environ.pop('C13_SAME_PATH', None)
         return n, V, info
